@@ -1,7 +1,7 @@
 (* C03 - codon-level mutators act on exactly the in-frame codons inside the region.
    Only statements, closed by `exact`, and their assumptions. *)
 From VV Require Import Model.Base Model.Pattern Model.Seq Model.CodonTable Model.Transcript Model.Mutators
-  Spec.PatternSpec Spec.CodonSpec Spec.RegionSpec Proofs.CodonTableProofs Proofs.CodonProofs Proofs.RegionProofs Generated.DefaultTable Generated.KernelsFrame Proofs.KernelFrameEquiv Generated.KernelsLift Proofs.KernelLiftEquiv.
+  Spec.PatternSpec Spec.CodonSpec Spec.RegionSpec Proofs.CodonTableProofs Proofs.CodonProofs Proofs.RegionProofs Generated.DefaultTable Generated.KernelsFrame Proofs.KernelFrameEquiv Generated.KernelsLift Proofs.KernelLiftEquiv Model.MutatorsGlue Model.Cdna Proofs.CdnaProofs.
 
 (* the codon windows produced for a region cut by Transcript._get_cds_seq are exactly the triplets of the annotated
    reading frame (strand-aware, from the GTF frame of the exon) whose three bases lie inside the region: every frame,
@@ -138,6 +138,22 @@ Theorem C03_range_clamp_matches_source : forall a b,
   (range_valid a = true -> range_valid b = true -> k_range_intersect a b = Ok (intersect a b)).
 Proof. intros a b. exact (conj (k_range_overlaps_eq a b) (k_range_intersect_eq a b)). Qed.
 
+(* cDNA mode: a region 2 inside the annotated CDS is designed as the coding region of the one-exon transcript (exon 0, frame 0,
+   plus strand) - C03_region_rows_exact applies to it as it stands; a region that does not touch the CDS (or a sequence without
+   one) is designed as non-coding *)
+Theorem C03_cdna_coding_region : forall tb c q r ms,
+  rs r <= re r -> range_in r c = true ->
+  cdna_region_rows tb (Some c) q r ms = region_rows tb (mkTr Plus [mkEx (rs c) (re c) 0 0]) q (Some 0) r ms /\
+  get_exon (mkTr Plus [mkEx (rs c) (re c) 0 0]) 0 = Ok (mkEx (rs c) (re c) 0 0).
+Proof. exact cdna_coding_region. Qed.
+
+Theorem C03_cdna_noncoding_region : forall tb cds q r ms,
+  match cds with Some c => overlaps r c = false | None => True end ->
+  cdna_region_rows tb cds q r ms =
+  (do b <- substr q r; do rows <- region_variants_noncds (mkSeq (rs r) b) ms;
+   Ok (map canon (keep_in_region r (fst rows) ++ keep_in_region r (snd rows)))).
+Proof. exact cdna_noncoding_region. Qed.
+
 Print Assumptions C03_codon_windows_exact.
 Print Assumptions C03_inframe_exact.
 Print Assumptions C03_top_replacement_exact.
@@ -152,3 +168,5 @@ Print Assumptions C03_minus_strand_orientation.
 Print Assumptions C03_noncoding_refused.
 Print Assumptions C03_frame_arithmetic_matches_source.
 Print Assumptions C03_range_clamp_matches_source.
+Print Assumptions C03_cdna_coding_region.
+Print Assumptions C03_cdna_noncoding_region.
